@@ -68,6 +68,9 @@ func (v *PointerSchema) process(ctx *p.SchemaCtx) {
 			return
 		}
 		ctx.Data = val
+		// the pointed-to schema must see the decoded data, not the factory: calling the factory a
+		// second time would read an already consumed request body
+		subCtx.Data = val
 	}
 	// End of messy code
 
